@@ -43,6 +43,11 @@ round 3:         (model Cli/GenModel.v, FormatModel.v; rendering Cli/GenShow.v)
                    against the exact statement of C20_patch_reproduces_any_format, and the
                    codec witnesses FORMAT_WITNESSES (real codecs outside the round-trip
                    hypothesis) replayed at every run.
+source tie:      harness/translate/clisave.py regenerates the save / load / patch path from the current source as programs
+                 over Cli/PyMonad.v; coq/srctie/CliGenEquiv.v (compiled at every run against the regenerated text) proves
+                 them equal to Cli/StmtModel.v (refined to GenModel.save_tr / FormatModel.patch_cmd_g in Cli/StmtProofs.v)
+                 and restates the C20 theorems about them; on a broken tie on_source_tie_break differences generated and
+                 hand programs inside Coq and replays the differing inputs on the real CLI.
 wave 2:          * extension "Options": the option plumbing of `deep diff` (Cli/OptModel.v): exit status
                    of the diff command, the keyword arguments DeepDiff receives, reproduction + identical
                    patch bytes under every sampled exact option set, OPTION_WITNESSES.
@@ -83,6 +88,11 @@ TRUSTED = [
     "the clause 'patch reproduces B': for JSON documents the C01 premise is discharged (C20_patch_reproduces_json_docs, guards wf + alias-free + no '__' keys); "
     "still premises: the C01 oracle conditions, conv_json_ok (list(x)/dict(x) on JSON values), unpickle(pickle d) = d (C14, not connected) and the JSON dump/load round trip; "
     "path rendering/parsing (C09) is outside the Delta model",
+    "source tie (fragment: serialization._save_content / save_content_to_path / load_path_content, commands.patch): the translator harness/translate/clisave.py "
+    "(white-listed ast shapes; skip rules S1-S6: docstrings, comments, logger calls, _save_content's unused return value, Delta's raise_errors flag, exit / exception "
+    "messages; abstraction rules A1-A6: import guards, the csv reader and writer blocks recognised by ast fingerprint, serialiser / parser names) and the statement "
+    "combinators of Cli/PyMonad.v (meaning of os.rename / os.remove / with open / write / json_dumps / try-except-else / raise / sys.exit, click's handling of SystemExit "
+    "and KeyboardInterrupt) are trusted in addition to - not instead of - the correspondence; commands.diff is not translated",
 ]
 ASSUMPTIONS = [
     "keys starting with '__' are ignored by `deep diff` by default (ignore_private_variables): generated documents avoid them",
@@ -2619,6 +2629,254 @@ def alias_witness(ctx):
                                       "observed": o and {"A": o["A"], "cli": o["cli"]}})
 
 
+# --------------------------------------------------------------------------
+# source tie (second tie between model and code): harness/translate/clisave.py regenerates
+# serialization._save_content / save_content_to_path / load_path_content and commands.patch as programs
+# over the statement combinators of Cli/PyMonad.v from the CURRENT source; coq/srctie/CliGenEquiv.v proves
+# them equal to the statement-level model Cli/StmtModel.v (refined to GenModel.save_tr /
+# FormatModel.patch_cmd_g in Cli/StmtProofs.v) and restates the theorems of Properties/C20.v about them.
+# --------------------------------------------------------------------------
+
+SOURCE_TIES = [{
+    "name": "clisave", "translator": "clisave", "gen_module": "CliGen", "equiv": ["CliGenEquiv"],
+    "needs": ["Cli.PyMonad", "Cli.PyMonadFacts", "Cli.StmtModel", "Cli.StmtProofs", "Cli.GenShow"],
+    "sources": ["deepdiff/serialization.py", "deepdiff/commands.py"],
+    "fragment": "serialization.save_content_to_path, serialization._save_content (all branches), "
+                "serialization.load_path_content (dispatch; the csv branch as one abstract step), commands.patch "
+                "(body, handlers, exit statuses, click decorators pinned); NOT commands.diff",
+}]
+
+TIE_VARIANT = {"load_delta": "open", "load_doc": "open", "apply": "call", "backup": "call", "open": "created", "dumps": "call",
+               "write": "half", "close": "garbage", "restore": "call", "remove": "call"}
+TIE_DEBRIS = {"open": "(Some [])", "write": "(Some [(-4)%Z])", "close": "(Some [(-3)%Z])"}
+TIE_HEADER = ("From DD Require Import Base.PyStr Cli.FsModel Cli.FsShow Cli.GenModel Cli.FormatModel Cli.GenShow "
+              "Cli.PyMonad Cli.StmtModel.\nFrom DDGen Require Import CliGen.\nLocal Open Scope Z_scope.\n")
+TIE_COQ = r'''
+Local Open Scope string_scope.
+Definition mkW (A : path) (sch : list (step * fault Z)) (have : bool) : world Z Z (Z * Z) :=
+  mkWorld A (sched_of sch) env0 (fun _ => t_dump) (fun _ => t_parse) (fun _ => have) t_unpickle t_apply.
+Definition sx_res (r : res unit) : sx :=
+  match r with
+  | Ok _ => SL [SA "done"]
+  | Raise (EStep k s) => SL [SA "raised"; SA (match k with KExc => "exc" | KBase => "base" end); SA (step_name s)]
+  | Raise (ESysExit n) => SL [SA "sysexit"; sx_nat n]
+  end.
+Definition show_prog (m : M Z unit) (f0 : fs Z) : sx := let '(f, r) := run_fin m f0 in SL (sx_state f ++ [sx_res r]).
+Definition show_cmd (m : M Z unit) (f0 : fs Z) : sx := let '(f, r) := run_cli m f0 in SL (sx_state f ++ [sx_cli r]).
+Definition idx {T : Type} (l : list T) : list (nat * T) := combine (seq 0 (List.length l)) l.
+Fixpoint diffs (cs : list (sx * sx * sx)) (n : nat) : string :=
+  match cs with
+  | [] => "END"
+  | (i, g, s) :: r =>
+      if sx_eqb g s then diffs r n
+      else match n with O => "END" | S n' => show_sx (SL [i; g; s]) ++ nl ++ diffs r n' end
+  end.
+Definition fts : list pystr := [s2p "json"; s2p "csv"; s2p "toml"; s2p "xyz"].
+Definition states : list (option zc * option zc) := [(Some [1], None); (Some [1], Some [(-9)]); (None, None); (None, Some [(-9)])].
+Definition docs : list Z := [2; 77].
+Definition bools : list bool := [false; true].
+Definition save_cases : list (sx * sx * sx) :=
+  flat_map (fun ft => flat_map (fun have => flat_map (fun st => flat_map (fun d => flat_map (fun keep => map (fun pl =>
+    let W := mkW pA (snd pl) (snd have) in
+    let f0 := gfs (fst (snd st)) (snd (snd st)) in
+    (SL [sx_nat (fst ft); sx_nat (fst have); sx_nat (fst st); sx_nat (fst d); sx_nat (fst keep); sx_nat (fst pl)],
+     show_prog (g_save_content_to_path W (snd d) pA (snd ft) (snd keep)) f0,
+     show_prog (s_save_content_to_path W (snd d) pA (snd ft) (snd keep)) f0))
+    (idx save_plans)) (idx bools)) (idx docs)) (idx states)) (idx [true; false])) (idx fts).
+Definition load_cases : list (sx * sx * sx) :=
+  flat_map (fun ft => flat_map (fun have => map (fun pl =>
+    let W := mkW pA (snd pl) (snd have) in
+    let f0 := gfs (Some [1]) None in
+    let sh := fun m : M Z Z => match m (f0, []) with (_, _, Ok d) => SL [SA "ok"; SZ d] | (_, _, Raise (EStep k s)) => SL [SA (step_name s)] | _ => SL [SA "exit"] end in
+    (SL [sx_nat (fst ft); sx_nat (fst have); sx_nat (fst pl)],
+     sh (g_load_path_content W pA (Some (snd ft))), sh (s_load_path_content W pA (Some (snd ft)))))
+    (idx [[]; [(SLoadDoc, fx None)]; [(SLoadDoc, fb None)]])) (idx [true; false])) (idx (fts ++ [s2p "yaml"; s2p "pickle"; s2p "tsv"; s2p "yml"])).
+Definition patch_cases : list (sx * sx * sx) :=
+  flat_map (fun bk => flat_map (fun keep => flat_map (fun debug => map (fun pl =>
+    let W := mkW pA (snd pl) true in
+    let f0 := upd pP (Some (t_pickle (1, 2))) (gfs (Some [1]) (snd bk)) in
+    (SL [sx_nat (fst bk); sx_nat (fst keep); sx_nat (fst debug); sx_nat (fst pl)],
+     show_cmd (g_patch W pA pP (snd keep) false (snd debug)) f0,
+     show_cmd (s_patch W pA pP (snd keep) false (snd debug)) f0))
+    (idx patch_plans)) (idx bools)) (idx bools)) (idx [None; Some [(-9)]]).
+Eval vm_compute in ("BEGIN" ++ nl ++ "SAVE" ++ nl ++ diffs save_cases 6).
+Eval vm_compute in ("BEGIN" ++ nl ++ "LOAD" ++ nl ++ diffs load_cases 6).
+Eval vm_compute in ("BEGIN" ++ nl ++ "PATCH" ++ nl ++ diffs patch_cases 6).
+'''
+
+
+def _tie_plans(steps, max_faults=2):
+    plans = [{}]
+    for s in steps:
+        for k in ("exc", "base"):
+            plans.append({s: (k, TIE_VARIANT[s])})
+    if max_faults >= 2:
+        for i, s1 in enumerate(steps):
+            for s2 in steps[i + 1:]:
+                for k1 in ("exc", "base"):
+                    for k2 in ("exc", "base"):
+                        plans.append({s1: (k1, TIE_VARIANT[s1]), s2: (k2, TIE_VARIANT[s2])})
+    return plans
+
+
+def _tie_coq_plan(plan):
+    return "[" + "; ".join("(%s, %s %s)" % (COQ_STEP[s], "fx" if plan[s][0] == "exc" else "fb", TIE_DEBRIS.get(s, "None"))
+                          for s in STEPS if s in plan) + "]"
+
+
+def _tie_replay_direct(ctx, a0, b0, ok, keep, plan, work, cases):
+    """one differing input of the save program on the real save_content_to_path: the ordinary correspondence case
+    (show_save with the observed placement / debris) and the direct oracle"""
+    pos = dumps_placement(run_save_direct(True, False, True, False, {}, work)["trace"]) or "DInside"
+    o = run_save_direct(a0, b0, ok, keep, plan, work)
+    table = {"OLD-A": [1], "BAK0": [-9], "OTHER": [5], "GARB": [-3]}
+    if o["new_text"]:
+        table[o["new_text"][:len(o["new_text"]) // 2]] = [-4]
+        table[o["new_text"]] = [2, 2]
+    code = make_coder(table)
+    expr = "show_save %s %s %s %s %s %s" % (
+        pos, core.coq_bool(keep), coq_opt_content([1] if a0 else None), coq_opt_content([-9] if b0 else None),
+        coq_opt_content([2, 2] if ok else None), coq_sched(plan, o["fired"], code, o["nat"]))
+    exp = [sx_file(code(o["A"])), sx_file(code(o["bak"])), sx_file(code(o["B"])), o["outcome"]]
+    case = {"direct": True, "a_present": a0, "bak_present": b0, "serialisable": ok, "keep": keep,
+            "faults": {s: list(kv) for s, kv in plan.items()}, "found_by": "source-tie differencing (generated vs hand model)"}
+    cases.append((expr, exp, case))
+    ctx.seen(("tie-direct", a0, b0, ok, keep, tuple(sorted(plan.items()))), True)
+    what = oracle_direct(a0, b0, ok, keep, o)
+    if what:
+        ctx.fail(dict(case, clause="restore", observed=o), what)
+    return {"input": case, "observed": {"A": o["A"], "bak": o["bak"], "outcome": o["outcome"]}, "oracle": what or "passes"}
+
+
+TIE_A_DOC, TIE_B_DOC = {"a": 1, "l": [1, 2]}, {"a": 2, "l": [1, 2, 3]}
+_TIE_REF_DONE = set()
+
+
+def _tie_replay_patch(ctx, prebak, keep, debug, plan, work, cases):
+    """one differing input of the patch command on the real CLI (diff --create-patch, then patch under the plan)"""
+    from deepdiff.serialization import json_loads
+    a_text, b_text = json.dumps(TIE_A_DOC, indent=1) + "\n ", json.dumps(TIE_B_DOC, indent=2) + "\n"
+    base_case = {"a_text": a_text, "b_text": b_text, "edit_kinds": ["source-tie"], "found_by": "source-tie differencing (generated vs hand model)"}
+    rc, delta_bytes, dexc, untouched = run_diff(a_text, b_text, work)
+    if rc != 0 or not untouched:
+        ctx.fail(dict(base_case, clause="diff", exit_code=rc, exception=dexc),
+                 "`deep diff A B --create-patch` failed or modified its inputs (exit %r, %s)" % (rc, dexc))
+        return {"input": base_case, "oracle": "diff failed"}
+    ref = run_patch(a_text, b_text, delta_bytes, keep, True, {}, False, work)
+    fails, loaded, load_err = oracle_reference(a_text, b_text, keep, ref)
+    if ("tie-ref", keep) not in _TIE_REF_DONE:            # the fault-free reference run is judged once per flag
+        _TIE_REF_DONE.add(("tie-ref", keep))
+        ctx.seen(("tie-ref", keep), True)
+        for (clause, what) in fails:
+            ctx.fail(dict(base_case, keep=keep, debug=True, faults={}, prebak=False, clause=clause, observed=ref), what)
+    out = {"input": dict(base_case, keep=keep, debug=debug, prebak=prebak, faults={s: list(kv) for s, kv in plan.items()}),
+           "reference_run": {"A": ref["A"], "bak": ref["bak"], "cli": ref["cli"]}, "oracle": [w for _c, w in fails] or "passes"}
+    new_text, pos = ref["A"], dumps_placement(ref["trace"])
+    if fails or new_text is None or pos is None or load_err:
+        return out
+    b_loaded = json_loads(b_text)
+    resid = 2 if doc_eq(loaded, b_loaded) else 3
+    table = {"GARB": [-3], "BAK0": [-9]}
+    if new_text[:len(new_text) // 2]:
+        table[new_text[:len(new_text) // 2]] = [-4]
+    table[b_text] = [2]
+    table[new_text] = [resid, resid]
+    table[a_text] = [1]
+    code = make_coder(table)
+    o = run_patch(a_text, b_text, delta_bytes, keep, debug, plan, prebak, work)
+    case = dict(base_case, keep=keep, debug=debug, prebak=prebak, faults={s: list(kv) for s, kv in plan.items()})
+    ctx.seen(("tie-patch", keep, debug, prebak, tuple(sorted(plan.items()))), True)
+    expr = "show_pipeline %s %s %s (Some %s) %s %s %s %s" % (
+        pos, core.coq_bool(keep), core.coq_bool(debug), coq_zlist([1]),
+        "(Some %s)" % coq_zlist([-9]) if prebak else "None", coq_zlist([2]), core.coq_Z(resid), coq_sched(plan, o["fired"], code, o["nat"]))
+    exp = [sx_file(code(o["A"])), sx_file(code(o["bak"])), sx_file(code(o["B"])), bool(o["P_same"]), [o["cli"][0], o["cli"][1]]]
+    cases.append((expr, exp, case))
+    what = oracle_faulty(a_text, b_text, new_text, plan, prebak, o)
+    if what:
+        ctx.fail(dict(case, clause="restore", observed=o), what)
+    out["run_under_plan"] = {"A": o["A"], "bak": o["bak"], "cli": o["cli"], "fired": sorted(o["fired"])}
+    if what:
+        out["oracle"] = what
+    return out
+
+
+def on_source_tie_break(ctx, name, rec):
+    """The regenerated programs are no longer proved equal to the hand model.  If they compiled: evaluate generated
+    and hand programs inside Coq on every (initial state, file type, flags, fault schedule with <= 2 faults) of the
+    small file systems the direct stream enumerates, take the first differing inputs and run them on the REAL
+    save_content_to_path / `deep patch` with the module's fault injector, correspondence case and direct oracle."""
+    out = {"status": rec.get("status"), "searched": None, "differing_inputs": {}, "replayed": []}
+    gen_vo = os.path.join(ctx.scratch, "srctie", "CliGen.vo")
+    if rec.get("status") in ("translator-rejected", "generated-model-does-not-compile") or not os.path.exists(gen_vo):
+        out["searched"] = ("nothing inside Coq (the translator rejected the source or the generated text does not compile): "
+                           "the fault-schedule streams of this run use thorough-size budgets instead")
+        return out
+    save_steps = [s for s in STEPS if s not in PRE_STEPS]
+    save_plans, patch_plans = _tie_plans(save_steps), _tie_plans(STEPS)
+    fn = os.path.join(ctx.scratch, "srctie", "tie_search.v")
+    with open(fn, "w") as f:
+        f.write("From Coq Require Import List String ZArith NArith Bool.\nImport ListNotations.\nFrom DD Require Import Base.Sx.\n")
+        f.write(TIE_HEADER)
+        f.write("Definition save_plans : list (list (step * fault Z)) := [\n  %s].\n" % ";\n  ".join(_tie_coq_plan(p) for p in save_plans))
+        f.write("Definition patch_plans : list (list (step * fault Z)) := [\n  %s].\n" % ";\n  ".join(_tie_coq_plan(p) for p in patch_plans))
+        f.write(TIE_COQ)
+    ctx.ensure_built(TIE_HEADER)
+    rc, txt = core.sh(["coqc", "-Q", core.THEORIES, "DD", "-Q", os.path.join(ctx.scratch, "srctie"), "DDGen", fn],
+                      timeout=900, cwd=os.path.join(ctx.scratch, "srctie"))
+    out["searched"] = ("generated vs hand programs inside Coq: save %d inputs (4 file types x optional modules present/absent x 4 initial "
+                       "states x serialisable/rejected x keep_backup x %d schedules with <= 2 faults), load_path_content 48 inputs, "
+                       "patch %d inputs (A.bak present/absent x --backup x --debug x %d schedules over all ten steps)"
+                       % (4 * 2 * 4 * 2 * 2 * len(save_plans), len(save_plans), 2 * 2 * 2 * len(patch_plans), len(patch_plans)))
+    if rc != 0:
+        out["error"] = "coqc failed on the search file: " + txt[-800:]
+        return out
+    import re as _re
+    blocks = {}
+    for m in _re.finditer(r'"BEGIN\n(SAVE|LOAD|PATCH)\n(.*?)END"', txt, _re.S):
+        blocks[m.group(1)] = [l for l in m.group(2).replace('""', '"').splitlines() if l.strip()]
+    if set(blocks) != {"SAVE", "LOAD", "PATCH"}:
+        out["error"] = "unexpected output of the search file: " + txt[-800:]
+        return out
+
+    def indices(line):
+        m = _re.match(r"^\(\(([\d ]+)\)", line)
+        return [int(x) for x in m.group(1).split()] if m else None
+    for k in blocks:
+        out["differing_inputs"][k] = blocks[k][:6]
+    sys.path.insert(0, core.REPO)
+    _quiet()
+    work = tempfile.mkdtemp(prefix="tie_", dir=ctx.scratch)
+    cases = []
+    fts = ["json", "csv", "toml", "xyz"]
+    states = [(True, False), (True, True), (False, False), (False, True)]
+    done = 0
+    for line in blocks["SAVE"]:
+        ix = indices(line)
+        if not ix or done >= 2:
+            continue
+        ft, have, st, d, keep, pl = ix
+        if fts[ft] != "json":
+            continue                                        # the other branches are replayed by the Formats / Crash extension streams
+        a0, b0 = states[st]
+        out["replayed"].append(_tie_replay_direct(ctx, a0, b0, d == 0, bool(keep), save_plans[pl], work, cases))
+        done += 1
+    done = 0
+    for line in blocks["PATCH"]:
+        ix = indices(line)
+        if not ix or done >= 2:
+            continue
+        bk, keep, debug, pl = ix
+        out["replayed"].append(_tie_replay_patch(ctx, bool(bk), bool(keep), bool(debug), patch_plans[pl], work, cases))
+        done += 1
+    if blocks["LOAD"] and not blocks["PATCH"]:
+        # the loader differs on a file type the json pipeline does not reach: replay the fault-free command once
+        out["replayed"].append(_tie_replay_patch(ctx, False, False, True, {}, work, cases))
+    if cases:
+        ctx.coq_cases("c20_tie_replay", HEADER, cases, label="source-tie differing inputs replayed on the implementation")
+    shutil.rmtree(work, ignore_errors=True)
+    return out
+
+
 def collect(ctx, results, name, header=None):
     uniq = {}
     total = 0
@@ -2654,9 +2912,14 @@ def run(ctx):
         _phases[name] = round(_time.time() - _t0, 1)
         ctx.note("phase_done_at_s", dict(_phases))
     rng = ctx.rng
+    # a broken source tie (the regenerated save / patch programs are not proved equal to the hand model any more)
+    # escalates the streams that exercise that fragment to their thorough-size budgets
+    deep = ctx.thorough or (ctx.tie_broken("clisave") and not ctx.failures)     # a failing input already in hand: no need to dig
+    if deep and not ctx.thorough:
+        ctx.note("source_tie_escalation", "fault-schedule depth, direct save stream and histories run with thorough-size budgets")
     n_pairs = 500 if ctx.thorough else 120
-    n_all = 24 if ctx.thorough else 2
-    n_pairs_mode = 80 if ctx.thorough else 8
+    n_all = 24 if deep else 2
+    n_pairs_mode = 80 if deep else 8
     tasks = []
     pairs = [(a, b, ["fixed"]) for (a, b) in FIXED_PAIRS]
     while len(pairs) < n_pairs:
@@ -2671,7 +2934,7 @@ def run(ctx):
         a, b, kinds = gen_number_pair(rng) if j % 12 == 5 else (gen_list_pair(rng) if j % 3 else gen_pair(rng))
         tasks.append((len(pairs) + j, a, b, a_text_of(a, rng), kinds, "ref", rng.randrange(1 << 30), ctx.scratch))
     # round 3: histories of several commands (JSON documents: inside the property) ...
-    htasks = [(i, rng.randrange(1 << 30), ctx.scratch) for i in range(400 if ctx.thorough else 60)]
+    htasks = [(i, rng.randrange(1 << 30), ctx.scratch) for i in range(400 if deep else 60)]
     # ... and, as extension streams (outside the statement: recorded, never a violation): process crashes at every
     # point of the save path, every branch of _save_content / load_path_content, the real codecs
     ctasks = []
@@ -2685,7 +2948,7 @@ def run(ctx):
     rtasks = [(ft, n_rt, rng.randrange(1 << 30), ctx.scratch) for ft in ("csv", "pickle") for _ in range(2)]
     # the long tasks first
     with mp.get_context("fork").Pool(core.NCPU) as pool:
-        r_direct = pool.apply_async(direct_task, ((rng.randrange(1 << 30), "all" if ctx.thorough else "single", ctx.scratch),))
+        r_direct = pool.apply_async(direct_task, ((rng.randrange(1 << 30), "all" if deep else "single", ctx.scratch),))
         r_crash = pool.map_async(crash_task, ctasks, chunksize=1)
         ltasks = [(i,) + gen_locale_pair(rng) + (bool(i % 2), ctx.scratch) for i in range(80 if ctx.thorough else 16)]
         r_locale = pool.map_async(locale_task, ltasks, chunksize=1)
